@@ -94,9 +94,24 @@ Definition geqb (a b : gres) : bool :=
 
 (* ---- typing of events against the handler's Type ---- *)
 Definition afits (t : ty) (a : act gval) : bool := match a with Put g => vfits t (norm g) | Del => true end.
+(* a change of a struct-typed model that keeps it a value of the struct: a number for a, a string for b *)
+Definition safits (k : key) (a : act gval) : bool :=
+  match a with
+  | Put g =>
+    match norm g with
+    | JNum _ => beq k fld_a
+    | JStr _ => beq k fld_b
+    | _ => false
+    end
+  | Del => false
+  end.
 Definition ev_fits (c : cfg) (e : event) : bool :=
   match e with
-  | EChange cs => forallb (fun ka => afits (c_ty c) (snd ka)) cs
+  | EChange cs =>
+    match c_ty c with
+    | TyStruct => forallb (fun ka => safits (fst ka) (snd ka)) cs
+    | t => forallb (fun ka => afits t (snd ka)) cs
+    end
   | EAdd v _ => vfits (c_ty c) (norm v)
   | ECreate d => fits c d
   | _ => true
